@@ -31,10 +31,21 @@ def vocabulary_of(prog):
 
 def new_helpers(prog, vocab):
     out = {}
+    # a function that is not in the vocabulary while a vocabulary function of the same module / impl has disappeared is a
+    # *renamed* function, not a new helper: it keeps its role and must stay a function of its own in the view
+    present = {strip_generics(b.path) for b in prog.bodies if b.kind in ("fn", "assoc_fn")}
+    missing = {}
+    for v in vocab:
+        if v not in present:
+            missing[v.rsplit("::", 1)[0]] = missing.get(v.rsplit("::", 1)[0], 0) + 1
     for b in prog.bodies:
         if b.kind not in ("fn", "assoc_fn"):
             continue
         if strip_generics(b.path) in vocab:
+            continue
+        pre = strip_generics(b.path).rsplit("::", 1)[0]
+        if missing.get(pre, 0) > 0:
+            missing[pre] -= 1
             continue
         if b.raw.get("reachable") is True or b.raw.get("impl_trait") or b.n > MAX_BLOCKS:
             continue
